@@ -1,39 +1,218 @@
-"""C16 / replicatedkv: assertion-freedom walks only (no Coq model, no theorem): the five generated archetypes
-(AReplica, Get, Put, Disconnect, ClockUpdate) run under the step harness over spec state; the oracle flags failed
-assertions, TLA+ type errors, crashes, and aborted attempts that changed the spec state."""
+"""C16 / replicatedkv: generation, implementation-side oracle (assertions / type errors / crashes), projection for
+coq/C16/Rkv.v (all five archetypes: AReplica, Get, Put, Disconnect, ClockUpdate; 28 labels)."""
+import json
+import vlib
 from c16_common import *
 
 NAME = "replicatedkv"
-COQ_MODULE = None
+COQ_MODULE = "C16.Rkv"
+RPC = {"replicaLoop": "RLoop", "receiveClientRequest": "RRecv", "clientDisconnected": "RDisc", "replicaGetRequest": "RGetReq",
+       "replicaPutRequest": "RPutReq", "replicaNullRequest": "RNullReq", "findStableRequestsLoop": "RFindStable",
+       "findMinClock": "RMinClock", "findMinClient": "RMinClient", "addStableMessage": "RAddStable",
+       "respondPendingRequestsLoop": "RRespond", "respondStableGet": "RRespGet", "respondStablePut": "RRespPut"}
+GPC = {"getLoop": "GLoop", "getRequest": "GRequest", "getReply": "GReply", "getCheckSpin": "GSpin", "Done": "GDone"}
+PPC = {"putLoop": "PLoop", "putRequest": "PRequest", "putBroadcast": "PBroadcast", "putResponse": "PResponse",
+       "putComplete": "PComplete", "putCheckSpin": "PSpin", "Done": "PDone"}
+DPC = {"sendDisconnectRequest": "DSend", "disconnectBroadcast": "DBroadcast", "Done": "DDone"}
+UPC = {"clockUpdateLoop": "ULoop", "nullBroadcast": "UBroadcast", "nullCheckSpin": "USpin", "Done": "UDone"}
+KEYS = {"getkey": 0, "putkey": 1}
+PUT_VALUE = 7
 
 
 def gen(rng):
     cfg = {"NUM_REPLICAS": rng.choice([1, 2, 2, 3]), "NUM_CLIENTS": rng.choice([1, 1, 2]), "BUFFER_SIZE": rng.choice([1, 2, 3]),
-           "WITH_DISCONNECT": 1 if rng.random() < 0.4 else 0}
-    return {"system": NAME, "kind": "auto", "cfg": cfg, "auto": {"seed": rng.getrandbits(60) | 1, "steps": 350}}
+           "WITH_DISCONNECT": 1 if rng.random() < 0.5 else 0}
+    return {"system": NAME, "kind": "auto", "cfg": cfg, "auto": {"seed": rng.getrandbits(60) | 1, "steps": 260}}
+
+
+def val_of(x):
+    """a stored value: NULL -> None, PUT_VALUE -> 7"""
+    if x == "NULL":
+        return None
+    if x == "putvalue":
+        return PUT_VALUE
+    raise Unencodable(json.dumps(x))
+
+
+def oopt(v):
+    return "None" if v is None else "(Some %d)" % v
+
+
+def msg_of(x):
+    d = fn_dict(x)
+    op = d.get("op")
+    if op == 2 and set(d) == {"op", "key", "client", "timestamp", "reply_to"}:
+        return "(MGet %d %d %d %d)" % (KEYS[d["key"]], nat(d["client"]), nat(d["timestamp"]), nat(d["reply_to"]))
+    if op == 3 and set(d) == {"op", "key", "value", "client", "timestamp", "reply_to"}:
+        return "(MPut %d %d %d %d %d)" % (KEYS[d["key"]], val_of(d["value"]), nat(d["client"]), nat(d["timestamp"]), nat(d["reply_to"]))
+    if op == 1 and set(d) == {"op", "client"}:
+        return "(MDisc %d)" % nat(d["client"])
+    if op == 4 and set(d) == {"op", "client", "timestamp"}:
+        return "(MNull %d %d)" % (nat(d["client"]), nat(d["timestamp"]))
+    raise Unencodable(json.dumps(x))
+
+
+def resp_of(x):
+    d = fn_dict(x)
+    if d.get("type") == 5 and set(d) == {"type", "result"}:
+        return "(RGet %s)" % oopt(val_of(d["result"]))
+    if d.get("type") == 6 and set(d) == {"type", "result"} and d["result"] is None:
+        return "RPut"
+    raise Unencodable(json.dumps(x))
+
+
+def resolve_fn(x, default):
+    """a function-valued local as tracked by steplib: whole value, unknown (None), or {"partial": overrides}"""
+    if x is None:
+        return dict(default)
+    if isinstance(x, dict) and "partial" in x:
+        d = dict(default)
+        for idx, v in x["partial"]:
+            if len(idx) != 1:
+                raise Unencodable(json.dumps(x))
+            d[idx[0]] = v
+        return d
+    return fn_dict(x)
+
+
+def opt(f, x):
+    return "None" if x is None else "(Some %s)" % f(x)
+
+
+def natset(x):
+    if not (isinstance(x, dict) and "s" in x):
+        raise Unencodable(json.dumps(x))
+    return [nat(e) for e in x["s"]]
 
 
 def analyse(case, res):
-    fails, breaks = [], []
+    cfg = case["cfg"]
+    nr, nc = cfg["NUM_REPLICAS"], cfg["NUM_CLIENTS"]
+    clients = list(range(nr, nr + nc))
+    fails, breaks, steps = [], [], []
     out = {"fails": fails, "breaks": breaks, "coq": None, "nontrivial": False,
-           "explicit": {"system": NAME, "kind": case.get("kind", "corpus"), "cfg": case["cfg"], "sched": explicit_sched(res)}}
+           "explicit": {"system": NAME, "kind": case.get("kind", "corpus"), "cfg": cfg, "sched": explicit_sched(res)}}
     if res.get("err"):
         breaks.append("harness error: " + res["err"])
         return out
+    pcs = PCs(res["pcs0"])
+    loc = {}
     pre = res["init"]
+    last_o = None
     responses = 0
-    for i, ob in enumerate(res["steps"]):
-        f, br = generic_failures(i, ob)
-        fails += f; breaks += br
-        if br:
-            break
-        if ob["outcome"] != "commit" and ob["state"] != pre:
-            fails.append(("abort-changed-state", "step %d: %s attempt of %s changed the spec state" % (i, ob["outcome"], ob["proc"])))
-        if ob["outcome"] == "commit" and ob["label"] in ("Get.getReply", "Put.putComplete"):
-            responses += 1
-        pre = ob["state"]
-        if ob["outcome"].startswith("error"):
-            break
+    disconnects = 0
+
+    def pcname(proc):
+        return pcs.pc[proc].split(".", 1)[1]
+
+    def L(proc, arch, name):
+        return loc.get(proc, {}).get(arch + "." + name)
+    try:
+        for i, ob in enumerate(res["steps"]):
+            f, br = generic_failures(i, ob)
+            fails += f; breaks += br
+            if br:
+                break
+            proc, label, oc = ob["proc"], ob["label"], ob["outcome"]
+            post = ob["state"]
+            prev_loc = loc.get(proc, {})
+            if oc == "commit":
+                loc[proc] = dict(ob["locals"])
+                if label in ("Get.getReply", "Put.putComplete"):
+                    responses += 1
+                if label == "Disconnect.sendDisconnectRequest":
+                    disconnects += 1
+            pcs.update(ob)
+            if oc != "commit" and post != pre:
+                fails.append(("abort-changed-state", "step %d: %s attempt of %s changed the spec state" % (i, oc, proc)))
+            # event
+            kind, num = proc[:3], int(proc[3:])
+            if kind == "rep":
+                pick = None
+                if oc == "commit" and label in ("AReplica.findMinClock", "AReplica.findMinClient"):
+                    name = "AReplica.clientsIter" if label.endswith("Clock") else "AReplica.pendingClients"
+                    before, after = prev_loc.get(name), loc[proc].get(name)
+                    if before is not None and after is not None:
+                        diff = set(natset(before)) - set(natset(after))
+                        if len(diff) == 1:
+                            pick = diff.pop()
+                ev = "(ERep %d %s)" % (num, oopt(pick))
+            elif kind == "get":
+                dst = None
+                for acc in ob.get("accesses") or []:
+                    if acc["kind"] == "w" and acc["var"] == "replicasNetwork":
+                        dst = nat(acc["idx"][0])
+                ev = "(EGet %d %s)" % (nr + num, oopt(dst))
+            elif kind == "put":
+                ev = "(EPut %d)" % (nr + nc + num)
+            elif kind == "dis":
+                ev = "(EDisc %d)" % (nr + 2 * nc + num)
+            else:
+                ev = "(EClk %d)" % (nr + 3 * nc + num)
+            # projection
+            rn, cb, ck = fn_dict(post["replicasNetwork"]), fn_dict(post["clientMailboxes"]), fn_dict(post["clocks"])
+            robs = []
+            for r in range(nr):
+                p = "rep%d" % r
+                A = lambda name: L(p, "AReplica", name)
+                lv = A("liveClients")
+                pr = A("pendingRequests")
+                cc = A("currentClocks")
+                prd = resolve_fn(pr, {c: {"t": []} for c in clients})
+                ccd = resolve_fn(cc, {c: 0 for c in clients})
+                kvd = fn_dict(post["kv%d" % r])
+                v = A("val")
+                has_val = "AReplica.val" in loc.get(p, {})
+                robs.append("(mkRO %s %s %s %s %s %s %s %s %s %s %s %s %s %s %s %s %s %s %s)" % (
+                    coq_nats(natset(lv) if lv is not None else clients),
+                    vlib.coq_list([vlib.coq_list([msg_of(m) for m in tup(prd[c])]) if c in prd else "[]" for c in clients]),
+                    vlib.coq_list([msg_of(m) for m in tup(A("stableMessages"))]) if A("stableMessages") is not None else "[]",
+                    opt(lambda x: str(nat(x)), A("i")), opt(msg_of, A("firstPending")), opt(lambda x: str(nat(x)), A("timestamp")),
+                    opt(lambda x: str(nat(x)), A("nextClient")), opt(lambda x: str(nat(x)), A("lowestPending")),
+                    opt(lambda x: vlib.coq_bool(bool(x)), A("chooseMessage")),
+                    coq_nats([ccd.get(c, 0) for c in clients]),
+                    opt(lambda x: str(nat(x)), A("minClock")), opt(lambda x: vlib.coq_bool(bool(x)), A("continue")),
+                    opt(lambda x: coq_nats(natset(x)), A("pendingClients")), opt(lambda x: coq_nats(natset(x)), A("clientsIter")),
+                    opt(msg_of, A("msg")), opt(lambda x: str(KEYS[x]), A("key")),
+                    ("(Some %s)" % oopt(val_of(v))) if has_val else "None",
+                    vlib.coq_list([oopt(val_of(kvd["getkey"])), oopt(val_of(kvd["putkey"]))]),
+                    RPC[pcname(p)]))
+            gets, puts, discs, clks = [], [], [], []
+            for k in range(nc):
+                p = "get%d" % k
+                c = L(p, "Get", "continue")
+                gets.append("(mkG %s %s %s %s)" % (vlib.coq_bool(True if c is None else bool(c)), opt(msg_of, L(p, "Get", "getReq")),
+                                                   opt(resp_of, L(p, "Get", "getResp")), GPC[pcname(p)]))
+                p = "put%d" % k
+                c = L(p, "Put", "continue")
+                puts.append("(mkP %s %s %s %s %s %s)" % (vlib.coq_bool(True if c is None else bool(c)), opt(lambda x: str(nat(x)), L(p, "Put", "i")),
+                                                         opt(lambda x: str(nat(x)), L(p, "Put", "j")), opt(msg_of, L(p, "Put", "putReq")),
+                                                         opt(resp_of, L(p, "Put", "putResp")), PPC[pcname(p)]))
+                p = "dis%d" % k
+                if p in pcs.pc:
+                    discs.append("(mkD %s %s %s)" % (opt(msg_of, L(p, "Disconnect", "msg")), opt(lambda x: str(nat(x)), L(p, "Disconnect", "j")), DPC[pcname(p)]))
+                else:
+                    discs.append("(mkD None None DSend)")
+                p = "clk%d" % k
+                c = L(p, "ClockUpdate", "continue")
+                clks.append("(mkU %s %s %s %s)" % (vlib.coq_bool(True if c is None else bool(c)), opt(lambda x: str(nat(x)), L(p, "ClockUpdate", "j")),
+                                                   opt(msg_of, L(p, "ClockUpdate", "msg")), UPC[pcname(p)]))
+            ov = post["out"]
+            outs = "OInit" if (ov == 0 and not isinstance(ov, bool)) else "OPutResp" if ov == 6 else "(ORes %s)" % oopt(val_of(ov))
+            o = "(mkObs %s %s %s %s %s %s %s %s %s)" % (
+                vlib.coq_list([vlib.coq_list([msg_of(m) for m in tup(rn[r])]) for r in range(nr)]),
+                vlib.coq_list([vlib.coq_list([resp_of(m) for m in tup(cb[c])]) for c in range(nr, nr + 4 * nc)]),
+                vlib.coq_list(["None" if ck[c] == -1 else "(Some %d)" % nat(ck[c]) for c in clients]),
+                outs, vlib.coq_list(robs), vlib.coq_list(gets), vlib.coq_list(puts), vlib.coq_list(discs), vlib.coq_list(clks))
+            same = oc != "commit" and post == pre and steps and last_o == o
+            steps.append("(%s,(%d,%s))" % (ev, OUT[oc], "None" if same else "Some " + o))
+            last_o = o
+            pre = post
+            if oc.startswith("error"):
+                break
+    except (Unencodable, KeyError, IndexError) as e:
+        breaks.append("observation outside the typed model's universe: %r" % (e,))
+    out["coq"] = "(mkCfg %d %d %d true, [%s])" % (nr, nc, cfg["BUFFER_SIZE"], ";\n  ".join(steps))
     out["nontrivial"] = responses >= 1
-    out["stats"] = {"client_operations_completed": responses}
+    out["stats"] = {"client_operations_completed": responses, "disconnects": disconnects}
     return out
